@@ -57,6 +57,14 @@ impl<'a> ZoneWriter<'a> {
         let metadata_writer = ZoneMetadataWriter::new(self.uid, self.segment_dir);
         metadata_writer.write_async(zone_plans).await?;
 
+        #[cfg(feature = "verif")]
+        crate::verif::gate(
+            "zone.meta_written",
+            crate::verif::shard_of(self.segment_dir),
+            zone_plans[0].segment_id,
+        )
+        .await;
+
         // Write .col files
         let mut writer = ColumnWriter::new(self.segment_dir.to_path_buf(), self.registry.clone());
         if let Some(catalog) = &self.type_catalog {
@@ -70,6 +78,14 @@ impl<'a> ZoneWriter<'a> {
             );
         }
         writer.write_all(zone_plans).await?;
+
+        #[cfg(feature = "verif")]
+        crate::verif::gate(
+            "zone.columns_written",
+            crate::verif::shard_of(self.segment_dir),
+            zone_plans[0].segment_id,
+        )
+        .await;
 
         // Build plan: decide which indexes to build per field/global
         let schema = self
@@ -122,6 +138,14 @@ impl<'a> ZoneWriter<'a> {
         TemporalIndexBuilder::new(self.uid, self.segment_dir, self.registry.clone())
             .build_for_zone_plans(zone_plans)
             .await?;
+
+        #[cfg(feature = "verif")]
+        crate::verif::gate(
+            "zone.temporal_written",
+            crate::verif::shard_of(self.segment_dir),
+            zone_plans[0].segment_id,
+        )
+        .await;
 
         // Build XOR filters
         if tracing::enabled!(tracing::Level::DEBUG) {
@@ -209,6 +233,14 @@ impl<'a> ZoneWriter<'a> {
             }
         }
 
+        #[cfg(feature = "verif")]
+        crate::verif::gate(
+            "zone.filters_written",
+            crate::verif::shard_of(self.segment_dir),
+            zone_plans[0].segment_id,
+        )
+        .await;
+
         // Build RLTE index (best-effort)
         if tracing::enabled!(tracing::Level::DEBUG) {
             debug!(
@@ -264,6 +296,14 @@ impl<'a> ZoneWriter<'a> {
             }
         }
 
+        #[cfg(feature = "verif")]
+        crate::verif::gate(
+            "zone.rlte_enum_written",
+            crate::verif::shard_of(self.segment_dir),
+            zone_plans[0].segment_id,
+        )
+        .await;
+
         // Build and write index
         if tracing::enabled!(tracing::Level::DEBUG) {
             debug!(
@@ -289,6 +329,14 @@ impl<'a> ZoneWriter<'a> {
             );
         }
         index.write_to_path_async(index_path).await?;
+
+        #[cfg(feature = "verif")]
+        crate::verif::gate(
+            "zone.index_written",
+            crate::verif::shard_of(self.segment_dir),
+            zone_plans[0].segment_id,
+        )
+        .await;
 
         // Write index catalog (.icx) if plan exists
         if let Some(plan) = build_plan.clone() {
